@@ -64,7 +64,7 @@ def gen_c04(tier, rng):
     # (i) boundary stream: each argument at a boundary, others normal or boundary
     for _ in range(n_rand):
         tag = rng.randint(0, 5)
-        wild = rng.random() < 0.12          # a minority of cases may leave the property's domain (overflow expected)
+        wild = rng.random() < (0.12 if tier == "quick" else 0.02)   # a minority of cases may leave the property's domain (overflow expected)
         y = clamp64(pick_year(rng)) if wild or rng.random() < 0.3 else rng.choice([rng.randint(-3000, 3000), rng.randint(-(1 << 50), 1 << 50), 1970, 2000])
         f = [pick_field(rng, 1, 12, wild), pick_field(rng, 1, 31, wild), pick_field(rng, 0, 23, wild),
              pick_field(rng, 0, 59, wild), pick_field(rng, 0, 59, wild)]
@@ -106,7 +106,7 @@ def norm_ct(rng):
 UNIT = [1, 60, 3600, 86400, 86400 * 30, 86400 * 365]
 
 
-def pick_n(rng, tag):
+def pick_n(rng, tag, wildp=0.05):
     r = rng.random()
     if r < 0.45:
         return rng.choice(SMALL)
@@ -114,7 +114,7 @@ def pick_n(rng, tag):
         return clamp64(rng.choice(BIG) + rng.randint(-70, 70))
     if r < 0.6:
         return rng.choice([I64_MIN, I64_MIN + 1, I64_MAX, I64_MAX - 1])
-    if r < 0.95:
+    if r < 1.0 - wildp:
         return rng.randint(-(1 << 36), 1 << 36)
     return rng.randint(I64_MIN, I64_MAX)
 
@@ -125,7 +125,7 @@ def gen_c05(tier, rng):
     for _ in range(n):
         tag = rng.randint(0, 5)
         a = norm_ct(rng)
-        k = pick_n(rng, tag)
+        k = pick_n(rng, tag, 0.05 if tier == "quick" else 0.01)
         cases.append("%s %d %s %d" % (rng.choice(["add", "sub"]), tag, " ".join(map(str, a)), k))
     # differences: b = a shifted by a chosen amount (in years/days) or independent
     for _ in range(n):
